@@ -220,6 +220,11 @@ def run(R):
         cls = "bs>1" if bsz > 1 else "bs=1"
         # solver accuracy: exponential-cone (poisson) and bisection (excitation) solves are only accurate to ~1e-3
         tol = {"excitation": 2e-2, "poisson": 1e-2, "minvar": 1e-3}.get(model, 2e-4)   # minvar: a cone problem whose own tolerance l2_eps is 1e-3
+        if model == "minvar":
+            # the error budget of the second stage is (first-stage error + l2_eps); the first stage is the gaussian QP, whose answer moves by
+            # ~1e-5 of the stacked problem's scale between batch sizes (below), and the variance optimum moves with the budget
+            # (thorough seed 1: 1.5e-3 with targets up to 58 units)
+            tol = max(tol, 5e-5 * (1.0 + float(np.max(np.abs(B)))))
         if model == "gaussian":
             # the QP solver's accuracy (1e-5, relative to the scale of the stacked problem) in capture units: with rows up to ~15 units in the
             # same call a row pinned at a bound (a dark row: x = lb) moves by ~3e-4 between batch sizes (thorough seed 0: 3.2e-4)
